@@ -14,6 +14,16 @@ CLAIMED["C20"] = dict(
     text="Every string up to length 6 (quick; 7 thorough) over {A b 1 2 - = # ' *} is parsed with both separators and compared field by field with an independent regex parser of the documented label grammar; format(parse(s)) must give back s up to the two documented default literals; each of the five components is emptied in turn and must vanish alone. Longer labels are built from parts so the expected parse is known by construction; get_label is compared with category + requested decorations for every option subset. Exhaustive inside the stated bound, sampled beyond it.",
     note="Trusted: the regex reference parser/formatter in checks/C20.py (derived from parse_label's docstring). A lone '*' may or may not count as a trace; emptying the function under always_gf is not checked; numbering without marking accepts both label3 and label*3.",
     ref="DESIGN.md section 2, C20")
+CLAIMED["C19"] = dict(
+    tech="exhaustive enumeration of all tree shapes up to 5 tokens (with unary decorations and rotated child lists) + Hypothesis random trees; every node and node pair against a set-based tree model",
+    text="All series-reduced hierarchies over <=4 tokens with every unary decoration and over 5 tokens with <=1 unary node, child lists stored in rotated order, plus random trees up to 12/16 tokens: children, terminals, terminal_blocks, siblings, dominance for every node, lca for every ordered pair, pre/postorder, levels and the export numbering are compared with a model that only knows token sets and the parent relation. Exhaustive within the shape bound, sampled beyond.",
+    note="Trusted: set model in vlib/model.py, shape enumeration in vlib/shapes.py (counts 1,1,4,26,236 checked). Traversal sibling order is not demanded (the statement only orders ancestors and descendants).",
+    ref="DESIGN.md section 2, C19")
+CLAIMED["C16"] = dict(
+    tech="exhaustive shape enumeration + Hypothesis random trees/treebanks against the run-based definition; metamorphic three-way agreement (gap degree / bracket writer / context-freeness); CLI subprocess runs on files from an independent encoder",
+    text="Gap degree, blocks and tree degree are compared with maximal runs of token positions on every node of every enumerated shape (<=5 tokens) and of random trees up to 14/18 tokens; the three notions of discontinuity must agree on each tree; disco_order must be a permutation in which every node is contiguous, equal to the left-to-right flattening in mode left and the identity on continuous trees; the three analysis tasks (API and real `treetools treeanalysis` subprocess) must print totals and per-degree histograms equal to the model's.",
+    note="Trusted: set model, the export encoder in vlib/codecs_tree.py, regex parsing of the printed summary. Mode rightd is only constrained as far as the property states (permutation, continuity, identity on continuous trees).",
+    ref="DESIGN.md section 2, C16")
 PENDING_REASON = "check not built yet in this round (planned, see DESIGN.md section 6); not claimed until it is quiet on the unchanged tree"
 
 
